@@ -46,7 +46,27 @@ func c05BoolLeaf(rt *rapid.T, vc *valConfig, reg map[string]bool) *Val {
 }
 
 func c05AnyLeaf(rt *rapid.T, vc *valConfig, reg map[string]bool) *Val {
-	switch rapid.IntRange(0, 6).Draw(rt, "any") {
+	switch rapid.IntRange(0, 8).Draw(rt, "any") {
+	case 7:
+		// SafeValue-marked slice / map types, nil half of the time: safe as a whole
+		switch rapid.IntRange(0, 2).Draw(rt, "svc") {
+		case 0:
+			return &Val{K: "svmap", I: int64(rapid.IntRange(0, 2).Draw(rt, "svm"))}
+		case 1:
+			v := vc.leafS(rt, "svslice", true, false)
+			if rapid.Bool().Draw(rt, "svnil") {
+				v.S = nil
+			}
+			return v
+		default:
+			v := &Val{K: "SafeBytes", S: genText(rt, "sbytes", 2)}
+			if rapid.Bool().Draw(rt, "sbnil") {
+				v.S = nil
+			}
+			return v
+		}
+	case 8:
+		return c05StringLeaf(rt, vc, reg)
 	case 0, 1:
 		return c05StringLeaf(rt, vc, reg)
 	case 2, 3:
@@ -87,7 +107,14 @@ func genC05Operand(rt *rapid.T, cl c05Class, vc *valConfig, reg map[string]bool,
 	case 8:
 		return &Val{K: "structI", Sub: []*Val{leaf(), genC05Operand(rt, cl, vc, reg, depth+1, bare)}}
 	case 9:
-		return &Val{K: "mii", Keys: []*Val{leaf()}, Sub: []*Val{genC05Operand(rt, cl, vc, reg, depth+1, bare)}}
+		key := leaf()
+		for i := 0; i < 20 && (key.K == "svmap" || key.K == "svslice" || key.K == "SafeBytes"); i++ {
+			key = leaf() // (slices and maps cannot be map keys)
+		}
+		if key.K == "svmap" || key.K == "svslice" || key.K == "SafeBytes" {
+			key = &Val{K: "nil"}
+		}
+		return &Val{K: "mii", Keys: []*Val{key}, Sub: []*Val{genC05Operand(rt, cl, vc, reg, depth+1, bare)}}
 	case 10:
 		if bare {
 			// SafeFormatter leaf: its safe methods inherit the active flags,
